@@ -640,10 +640,11 @@ def write_p8png(regions, code_area, version, base_rows=None, filters=None):
     return png_encode(CART_W, CART_H, rows, filters)
 
 
-def read_p8png(data):
-    """Reference .p8.png reader -> dict(regions..., code_area, version, rows)."""
+def read_p8png(data, strict=True):
+    """Reference .p8.png reader -> dict(regions..., code_area, version, rows).  strict=False: a picture of another size that has room
+    for the 0x8001 bytes (a cart saved over a picture that is not cartridge-sized) is read the same way, pixel after pixel."""
     w, h, rows = png_decode(data)
-    if (w, h) != (CART_W, CART_H):
+    if (w, h) != (CART_W, CART_H) and (strict or w * h < 0x8001):
         raise FormatError('cart image is %dx%d' % (w, h))
     mem = stego_unpack(rows, w)
     res = split_memory(mem)
